@@ -42,6 +42,8 @@ ESSENTIAL = {
     "C06_router": ["several-routes-accept", "no-route-accepts", "unhandled-iq-request", "first-match-not-first-route", "response-to-pending-request", "router-used-before"],
     "C07_iqresult": ["parked-at-yield-point", "duplicate-response", "cancellation"],
     "C07_stress": ["racing-cancellation", "abandoned-receiver"],
+    "C07_e2e": ["request-from-inside-a-handler", "duplicate-responses", "component"],
+    "C08_bigwrite": ["logger", "tls"],
     "C08_send": ["concurrent", "send-after-disconnect", "client-ws", "client-tls", "component-tcp"],
     "C09_smcount": ["resumption", "r-after-non-stanza", "earlier-connections-without-sm", "enabled-without-resumption"],
     "C10_smqueue": ["ack-with-unacked-suffix", "stale-ack", "ack-beyond-sent", "server-r"],
@@ -64,12 +66,12 @@ TEXT = {
     "C07": dict(
         technique="stateful schedule-owning property test (rapid): generated histories of SendIQ / response / read / cancel operations with goroutines parked and released at two yield points compiled in under the verif build tag; -race pass in the thorough tier",
         level_text="Exploration with harness-owned schedules: histories over 1-4 SendIQ requests on a Client or Component (stub Transport) are generated as values; the calling goroutine can be parked between the write of the request and the registration of the pending route, and a goroutine routing a response can be parked after it found the pending entry, so the three logical races of the code (response between write and registration; two responses both past the lookup; delivery racing with an abandoned or cancelled receiver) are produced deterministically and shrink like any other value. Oracle: no panic, no route call outlives the contexts, at most one response per channel and only its own id, no response in two places, the caller of a written, uncancelled, read request gets exactly the first response, the channel is closed and the entry removed, unknown ids go to the ordinary route once.",
-        level_note="Only interleavings that pass through the two yield points are forced; the rest is left to the Go scheduler (and to -race in the thorough tier). Requests with clashing ids only get the safety assertions (which of them receives the response is not specified). 2000 histories + 120 stress cases (50-400 rounds each) quick, 100k + 4000 thorough. The stress check (start barrier, concurrent duplicates, racing cancellation) covers interleavings away from the yield points statistically.",
+        level_note="Only interleavings that pass through the two yield points are forced; the rest is left to the Go scheduler (and to -race in the thorough tier). Requests with clashing ids only get the safety assertions (which of them receives the response is not specified). 2000 histories + 120 stress cases (50-400 rounds each) quick, 100k + 4000 thorough. The stress check (start barrier, concurrent duplicates, racing cancellation) covers interleavings away from the yield points statistically. A third check (C07_e2e, 120 / 3000 cases) runs requests through the real receive loop of a Client or Component against the scripted peer, for a Client also from inside a route handler that waits for its answer, with single and repeated responses.",
     ),
     "C08": dict(
         technique="property-based concurrency stress (rapid) with a byte-exact wire oracle on the scripted peer, plus write-fault injection on a stub Transport; -race pass in the thorough tier",
-        level_text="Exploration: G x K concurrent Send / SendRaw / SendIQ calls with unique ids and payloads up to 64 KB over client/TCP, client/TLS, client/WebSocket and component/TCP, with stream management and the traffic logger on or off; the peer captures the exact bytes of every element: each accepted send must arrive exactly once and byte-identical, nothing else and nothing unparsable may arrive, accepted stanzas must be held under SM, sends after Disconnect must fail without panic. A second check injects Write failures at generated indices on a stub Transport: an error is returned exactly when the write failed and each success is exactly one Write of the serialised bytes.",
-        level_note="Interleavings are those the Go scheduler produces (16 goroutines, 16 cores) plus the race detector in the thorough tier; they are not enumerated. 120 stress cases + 3000 fault cases quick; 4000 + 200k thorough.",
+        level_text="Exploration: G x K concurrent Send / SendRaw / SendIQ calls with unique ids and payloads up to 64 KB over client/TCP, client/TLS, client/WebSocket and component/TCP, with stream management and the traffic logger on or off; the peer captures the exact bytes of every element: each accepted send must arrive exactly once and byte-identical, nothing else and nothing unparsable may arrive, accepted stanzas must be held under SM, sends after Disconnect must fail without panic. A second check injects Write failures at generated indices on a stub Transport: an error is returned exactly when the write failed and each success is exactly one Write of the serialised bytes. A third check (C08_bigwrite) sends a 24-40 MB stanza over real TCP (plain / STARTTLS, logger on/off, client / component) while the server reads a little and resets the connection: the call must return an error.",
+        level_note="Interleavings are those the Go scheduler produces (16 goroutines, 16 cores) plus the race detector in the thorough tier; they are not enumerated. 120 stress cases + 3000 fault cases + 32 big writes quick; 4000 + 200k + 400 thorough.",
     ),
     "C18": dict(
         technique="property-based fault injection (rapid): generated interval / failing-keepalive index / session-end time on a stub Transport and on a real Client with a wrapped Transport against the scripted peer",
